@@ -11,9 +11,15 @@ type c13Oracle struct {
 	// authedOK[browser] = the twofactor_authed mark in this browser's session
 	// was obtained by presenting the token mailed for this session
 	authedOK map[int]int
+	// pwOnly[browser] = the account whose identity this browser's session got
+	// from a password (or one-time password) step alone although the account
+	// has a second factor
+	pwOnly map[int]string
 }
 
-func newC13Oracle(w *World) Oracle { return &c13Oracle{authedOK: map[int]int{}} }
+func newC13Oracle(w *World) Oracle {
+	return &c13Oracle{authedOK: map[int]int{}, pwOnly: map[int]string{}}
+}
 
 func splitCSV(s string) []string {
 	if s == "" {
@@ -50,12 +56,29 @@ func (c *c13Oracle) Check(w *World, o *Obs) []Violation {
 	if !o.IsHTTP {
 		if st.Kind == "drop_session" {
 			delete(c.authedOK, st.B)
+			delete(c.pwOnly, st.B)
 		}
 		return nil
 	}
 	cfg := &w.Cfg
 	uid := o.uidBefore()
 	full := uid != "" && o.SessBefore["halfauth"] == ""
+	pwOnly := c.pwOnly[st.B]
+	if pwOnly != uid {
+		pwOnly = ""
+	}
+	defer func() {
+		after := o.uidAfter()
+		if put, ok := w.loginPut(o); ok && (st.Kind == "login" || st.Kind == "otp_login") {
+			if row := o.RowsBefore[put]; row != nil && w.rowHasFactor(row) && put == after {
+				c.pwOnly[st.B] = put
+				return
+			}
+		}
+		if _, put := o.sessPut("uid"); put || after != c.pwOnly[st.B] {
+			delete(c.pwOnly, st.B)
+		}
+	}()
 
 	// the e-mail authorisation mark
 	if v, ok := o.sessPut("twofactor_authed"); ok && v == "true" {
@@ -116,6 +139,10 @@ func (c *c13Oracle) Check(w *World, o *Obs) []Violation {
 		}
 	}
 
+	// an injected failure after the enrolment was saved (the renderer, say)
+	// ends the request with an error: what the response would have done to
+	// the session is lost with it (C18 judges failed requests)
+	failedAfterSave := o.FaultFired != "" && (o.errorOutcome() || o.Panic != "")
 	for pid, after := range o.RowsAfter {
 		before := o.RowsBefore[pid]
 		if before == nil {
@@ -132,6 +159,10 @@ func (c *c13Oracle) Check(w *World, o *Obs) []Violation {
 			}
 		}
 
+		if pwOnly == pid && (before.TOTPSecretKey != after.TOTPSecretKey || before.SMSPhone != after.SMSPhone || before.RecoveryCodes != after.RecoveryCodes) {
+			out = append(out, viol("C13", "changed_by_password_step_only", st.Kind, o,
+				fmt.Sprintf("2FA settings of %s changed by a session that holds its identity from the password step alone (the second factor was never presented)", pid)))
+		}
 		if before.TOTPSecretKey != after.TOTPSecretKey {
 			if after.TOTPSecretKey != "" {
 				// enable / re-key
@@ -146,7 +177,7 @@ func (c *c13Oracle) Check(w *World, o *Obs) []Violation {
 					out = append(out, viol("C13", "totp_enabled_without_email_auth", st.Kind, o, fmt.Sprintf("TOTP secret of %s enrolled without the e-mail authorisation of this session for this account (%s)", pid, emailWhy), "why", emailWhy))
 				default:
 					w.Stats.Reach["c13_totp_enabled"]++
-					if cfg.EmailAuth2FA && o.SessAfter["twofactor_authed"] != "" {
+					if cfg.EmailAuth2FA && o.SessAfter["twofactor_authed"] != "" && !failedAfterSave {
 						out = append(out, viol("C13", "authorisation_not_spent", st.Kind, o, "completed TOTP enrolment left the e-mail authorisation mark in the session"))
 					}
 				}
@@ -184,7 +215,7 @@ func (c *c13Oracle) Check(w *World, o *Obs) []Violation {
 					out = append(out, viol("C13", "sms_enabled_without_email_auth", st.Kind, o, fmt.Sprintf("SMS number of %s enrolled without the e-mail authorisation of this session for this account (%s)", pid, emailWhy), "why", emailWhy))
 				default:
 					w.Stats.Reach["c13_sms_enabled"]++
-					if cfg.EmailAuth2FA && o.SessAfter["twofactor_authed"] != "" {
+					if cfg.EmailAuth2FA && o.SessAfter["twofactor_authed"] != "" && !failedAfterSave {
 						out = append(out, viol("C13", "authorisation_not_spent", st.Kind, o, "completed SMS enrolment left the e-mail authorisation mark in the session"))
 					}
 				}
